@@ -113,7 +113,7 @@ class PeerConn:
                 req = unhexlify(line.strip())
                 self.requests += 1
                 self.peer.requests.append((self.idx, req))
-                self.respond(hexlify(self.peer.reply_for(req)) + b"\n")
+                self.respond(b"".join(hexlify(x) + b"\n" for x in self.peer.replies_for(req, self.idx)))
         elif p == "doip":
             while len(self.buf) >= 8:
                 _, _, ptype, ln = struct.unpack("!BBHL", self.buf[:8])
@@ -127,7 +127,7 @@ class PeerConn:
                     self.requests += 1
                     self.peer.requests.append((self.idx, req))
                     self.respond(doip(0x8002, struct.pack("!HHB", TGT, SRC, 0) + req) +
-                                 doip(0x8001, struct.pack("!HH", TGT, SRC) + self.peer.reply_for(req)))
+                                 b"".join(doip(0x8001, struct.pack("!HH", TGT, SRC) + x) for x in self.peer.replies_for(req, self.idx)))
         elif p == "hsfz":
             while len(self.buf) >= 6:
                 ln, cw = struct.unpack("!IH", self.buf[:6])
@@ -138,11 +138,12 @@ class PeerConn:
                     req = body[2:]
                     self.requests += 1
                     self.peer.requests.append((self.idx, req))
-                    self.respond(hsfz(2, bytes([HS, HD]) + req[:5]) + hsfz(1, bytes([HD, HS]) + self.peer.reply_for(req)))
+                    self.respond(hsfz(2, bytes([HS, HD]) + req[:5]) + b"".join(hsfz(1, bytes([HD, HS]) + x) for x in self.peer.replies_for(req, self.idx)))
 
 
 class Peer:
-    def __init__(self, proto: str, cut: int | None, kind: str, restart_delay: float, cut_at_boundary: bool = True) -> None:
+    def __init__(self, proto: str, cut: int | None, kind: str, restart_delay: float, cut_at_boundary: bool = True, pending: bool = False) -> None:
+        self.pending = pending  # the first connection answers a read with ResponsePending before the final reply
         self.proto = proto
         self.cut = cut
         self.kind = kind
@@ -152,6 +153,12 @@ class Peer:
         self.requests: list[tuple[int, bytes]] = []
         self.cut_time: float | None = None
         self.refused = 0
+
+    def replies_for(self, req: bytes, conn_idx: int) -> list[bytes]:
+        final = self.reply_for(req)
+        if self.pending and conn_idx == 0 and req[:1] == b"\x22":
+            return [bytes([0x7F, req[0], 0x78]), final]
+        return [final]
 
     def reply_for(self, req: bytes) -> bytes:
         if req[:1] == b"\x3e":
@@ -183,14 +190,16 @@ def transport_cls(proto: str) -> Any:
     return {"tcp-lines": TCPLinesTransport, "unix-lines": UnixLinesTransport, "doip": DoIPTransport, "hsfz": HSFZTransport}[proto]
 
 
-def stream_len(proto: str, did: int) -> int:
+def stream_len(proto: str, did: int, pending: bool = False) -> int:
     req = b"\x22" + did.to_bytes(2, "big")
     reply = b"\x62" + req[1:3] + REPLY_TAIL
+    pend = b"\x7f\x22\x78"
     if proto in ("tcp-lines", "unix-lines"):
-        return len(hexlify(reply)) + 1
+        return len(hexlify(reply)) + 1 + (len(hexlify(pend)) + 1 if pending else 0)
     if proto == "doip":
-        return len(doip(0x0006, b"\0" * 9)) + len(doip(0x8002, b"\0" * 5 + req)) + len(doip(0x8001, b"\0" * 4 + reply))
-    return len(hsfz(2, b"\0\0" + req[:5])) + len(hsfz(1, b"\0\0" + reply))
+        return len(doip(0x0006, b"\0" * 9)) + len(doip(0x8002, b"\0" * 5 + req)) + len(doip(0x8001, b"\0" * 4 + reply)) + \
+            (len(doip(0x8001, b"\0" * 4 + pend)) if pending else 0)
+    return len(hsfz(2, b"\0\0" + req[:5])) + len(hsfz(1, b"\0\0" + reply)) + (len(hsfz(1, b"\0\0" + pend)) if pending else 0)
 
 
 def run_case(case: dict[str, Any]) -> dict[str, Any]:
@@ -198,7 +207,7 @@ def run_case(case: dict[str, Any]) -> dict[str, Any]:
     did = case["did"]
     req_pdu = b"\x22" + did.to_bytes(2, "big")
     reply = b"\x62" + req_pdu[1:3] + REPLY_TAIL
-    peer = Peer(proto, case["cut"], case["kind"], case["restart"], case.get("boundary_cut", True))
+    peer = Peer(proto, case["cut"], case["kind"], case["restart"], case.get("boundary_cut", True), bool(case.get("pending")))
     rec: dict[str, Any] = {"ops": []}
 
     async def go() -> None:
@@ -301,6 +310,15 @@ def check(case: dict[str, Any]) -> list[tuple[str, str]]:
             return out
     if level in ("client", "wait") and r["ops"] and r["ops"][0][0] == "connect" and r["ops"][0][1] != "ok":
         return out  # the very first connection attempt failed: there is no client whose recovery could be observed
+    if level == "client" and case["max_retry"] == 0:
+        # no retry left: the loss has to surface as a timeout / connection error (checked above: no other exception), never as data
+        lost = peer.cut_time is not None and not _contains_reply(proto, peer.conns[0].sent, reply)
+        last = next((o for o in reversed(r["ops"]) if o[0] == "request"), None)
+        if lost and last is not None and last[1] == "ok":
+            out.append((f"C08/{proto}/client/fabricated-data/{kind}", f"{ctx}: the reply never left the peer, the client returned {r.get('client_reply')!r}"))
+        if not lost and r.get("client_reply") != reply:
+            out.append((f"C08/{proto}/client/reply-lost-without-loss/{kind}", f"{ctx}"))
+        return out
     if level in ("client", "wait"):
         lost = peer.cut_time is not None and not _contains_reply(proto, peer.conns[0].sent, reply)
         if level == "wait":
@@ -342,20 +360,31 @@ def enumerate_cases(did: int, level: str, restart: float, max_retry: int, protos
                     if level == "wait" and kind == "silence":
                         continue  # wait_for_ecu pings with 0.5 s timeouts: a silent connection is never declared dead
                     # DoIP keeps trying to reconnect for 10 s: let its peer stay away for longer
-                    rs = restart if proto != "doip" else {0.0: 0.0, 0.05: 1.0, 0.1: 3.0}.get(restart, restart)
+                    # (up to just before the end of that window: 9.55 s)
+                    rs = {0.0: 0.0, 0.05: 1.0, 0.1: 3.0, 0.12: 6.45, 0.15: 9.55}.get(restart, restart) if proto == "doip" else min(restart, 0.1)
                     cases.append({"proto": proto, "level": level, "did": did, "cut": cut, "kind": kind, "timeout": T, "restart": rs,
                                   "max_retry": max_retry, "second_read": True})
+        if level == "client":
+            # the same exchange with a ResponsePending in front of the final reply: every cut point once more, with the retries
+            # the case asks for and with none left (the loss then has to surface as the error the statement names)
+            n2 = stream_len(proto, did, True)
+            for cut in range(n - (n2 - n) if proto in ("tcp-lines", "unix-lines") else n - (n2 - n) - 8, n2 + 1):
+                for kind in ("eof", "reset"):
+                    for mr in (max_retry, 0):
+                        cases.append({"proto": proto, "level": level, "did": did, "cut": max(0, cut), "kind": kind, "timeout": 1.0,
+                                      "restart": {0.0: 0.0, 0.05: 1.0, 0.1: 3.0, 0.12: 6.45, 0.15: 9.55}.get(restart, restart) if proto == "doip" else min(restart, 0.1),
+                                      "max_retry": mr, "second_read": True, "pending": True})
     return cases
 
 
 @st.composite
 def exchange_s(draw) -> dict[str, Any]:
     return {"did": draw(st.integers(1, 0xFFFF)), "level": draw(st.sampled_from(["transport", "transport", "client", "wait"])),
-            "restart": draw(st.sampled_from([0.0, 0.05, 0.1])), "max_retry": draw(st.sampled_from([1, 2, 3]))}
+            "restart": draw(st.sampled_from([0.0, 0.05, 0.1, 0.12, 0.15])), "max_retry": draw(st.sampled_from([1, 2, 3]))}
 
 
 def nontrivial(case: dict[str, Any]) -> bool:
-    return case["cut"] is not None and 0 < case["cut"] < stream_len(case["proto"], case["did"])
+    return case["cut"] is not None and 0 < case["cut"] < stream_len(case["proto"], case["did"], bool(case.get("pending")))
 
 
 def shards(tier: str) -> list[dict[str, Any]]:
@@ -374,8 +403,9 @@ def run_shard(spec: dict[str, Any], seed: int) -> Collector:
         ex = dict(ex, level=spec["level"])
         for case in enumerate_cases(ex["did"], ex["level"], ex["restart"], ex["max_retry"], spec["protos"]):
             res = check(case)
-            col.case((case["proto"], case["level"], case["did"], case["cut"], case["kind"], case["timeout"], case["restart"], case["max_retry"]),
-                     nontrivial(case), cls=f"{case['proto']}/{case['level']}/{case['kind']}" + ("/no-timeout" if case["timeout"] is None else ""), sample=case)
+            col.case((case["proto"], case["level"], case["did"], case["cut"], case["kind"], case["timeout"], case["restart"], case["max_retry"], bool(case.get("pending"))),
+                     nontrivial(case), cls=f"{case['proto']}/{case['level']}/{case['kind']}" + ("/no-timeout" if case["timeout"] is None else "")
+                     + ("/after-pending" + ("/no-retry-left" if case["max_retry"] == 0 else "") if case.get("pending") else ""), sample=case)
             for b, m in res:
                 col.violation(b, case, m)
         col.exhaustive_parts.append(f"exchange did={ex['did']:#x} level={ex['level']} {spec['protos']}: every cut offset x 3 cut kinds")
